@@ -35,13 +35,13 @@ def promiseCover : List ((String × String × String × String × String) × Str
   (("_coo/core.py", "COO.squeeze", "COO", "True", "False"), "correspondence C08 leg A (squeeze_core): dropping length-1 axes keeps linear order"),
   (("_coo/core.py", "COO.transpose", "COO", "False", "False"), "theorem C06.sorted_rewrite_canonical (has_duplicates=False: axis permutation is injective)"),
   (("_coo/indexing.py", "getitem", "COO", "True", "False"), "correspondence C02 leg A (getitem): filter in storage order; sorted cleared by negative steps / advanced index not first"),
-  (("_coo/indexing.py", "getitem", "COO", "sorted", "False"), "correspondence C02 leg A (getitem): filter in storage order; sorted cleared by negative steps / advanced index not first"),
+  (("_coo/indexing.py", "getitem", "COO", "<local>", "False"), "correspondence C02 leg A (getitem): filter in storage order; sorted cleared by negative steps / advanced index not first"),
   (("_io.py", "load_npz", "COO", "True", "False"), "file contents trusted as written by save_npz (C14)"),
   (("_io.py", "load_npz", "GCXS", "triple", "triple"), "file contents trusted as written by save_npz (C14)"),
   (("_umath.py", "_Elemwise._get_func_coords_data", "COO", "True", "False"), "intermediate array: expansion of sorted matched coordinates; C01 leg A on the final result"),
   (("_umath.py", "_Elemwise._match_coo", "COO", "True", "False"), "intermediate arrays of matched coordinates (sorted merge); C01 leg A on the final result"),
   (("_umath.py", "_Elemwise.get_result", "COO", "False", "False"), "has_duplicates=False only: the mask pieces are disjoint (theorem C01.elemwise2_get); constructor sorts"),
-  (("_umath.py", "broadcast_to", "COO", "sorted", "False"), "correspondence C01 leg A (broadcast_to): expansion order; sorted iff non-broadcast axes adjacent")
+  (("_umath.py", "broadcast_to", "COO", "<local>", "False"), "correspondence C01 leg A (broadcast_to): expansion order; sorted iff non-broadcast axes adjacent")
 ]
 
 end SparseV
